@@ -1,6 +1,9 @@
 package vsimrt
 
-import "unsafe"
+import (
+	"runtime"
+	"unsafe"
+)
 
 // Channel operations of the code under test. The instrumenter rewrites
 //
@@ -11,8 +14,8 @@ import "unsafe"
 //	select { ...; default: ... }  ->  an if/else chain of TryRecv / TrySend
 //
 // so that a task that would block in the Go runtime yields to the simulator
-// instead. (A select without default is not handled: the instrumenter stops
-// with exit 2.) Buffered channels keep using the real channel (non-blocking
+// instead. A select without default becomes a call of Select (end of this
+// file). Buffered channels keep using the real channel (non-blocking
 // attempts), hence the real happens-before edges. An unbuffered send cannot
 // complete by polling (no receiver is ever really parked), so it goes through
 // a rendezvous table with explicit acquire/release annotations in both
@@ -231,4 +234,175 @@ func Recv2[T any](ch <-chan T) (T, bool) {
 func Recv[T any](ch <-chan T) T {
 	v, _ := Recv2(ch)
 	return v
+}
+
+// Blocking select. The instrumenter rewrites
+//
+//	select { case ch <- v: A; case x, ok := <-ch2: B }      (no default)
+//
+// into
+//
+//	switch { default:
+//		vsimC0 := vsimrt.SendCase(ch, v)
+//		vsimC1 := vsimrt.RecvCase(ch2)
+//		switch vsimrt.Select(vsimC0, vsimC1) {
+//		case 0: A
+//		case 1: x, ok := vsimC1.V, vsimC1.Ok; B
+//		}
+//	}
+//
+// Channel and value expressions are evaluated once, in source order, like the
+// real statement. Select polls the cases and yields as "blocked" between
+// polls; of several ready cases the first in source order fires (one of the
+// behaviours the real select may show). A send case on an unbuffered channel
+// places an offer in the rendezvous table for as long as the select waits and
+// withdraws it when another case fires or the task is torn down.
+
+// SelCase is one communication clause of a blocking select.
+type SelCase interface {
+	selTaken() bool
+	selTry() bool
+	selTryReal() bool
+	selCleanup()
+}
+
+type SendCaseT[T any] struct {
+	ch        chan<- T
+	v         T
+	idx       int
+	tok, back *byte
+}
+
+func SendCase[T any](ch chan<- T, v T) *SendCaseT[T] { return &SendCaseT[T]{ch: ch, v: v, idx: -1} }
+
+func (c *SendCaseT[T]) selTaken() bool {
+	if c.idx >= 0 && taken(c.idx) {
+		c.idx = -1
+		raceAcquire(unsafe.Pointer(c.back))
+		return true
+	}
+	return false
+}
+
+func (c *SendCaseT[T]) selTry() bool {
+	if c.ch == nil {
+		return false
+	}
+	if cap(c.ch) > 0 {
+		select {
+		case c.ch <- c.v: // panics if the channel is closed, like the real thing
+			notify()
+			return true
+		default:
+			return false
+		}
+	}
+	if c.idx < 0 {
+		// a really parked receiver (code the rewriter did not reach) is served at once
+		select {
+		case c.ch <- c.v:
+			notify()
+			return true
+		default:
+		}
+		c.tok, c.back = new(byte), new(byte)
+		raceRelease(unsafe.Pointer(c.tok))
+		c.idx = offer(chanPtr(c.ch), c.v, c.tok, c.back)
+		notify()
+		return false
+	}
+	select {
+	case c.ch <- c.v:
+		if withdraw(c.idx) {
+			c.idx = -1
+			notify()
+			return true
+		}
+	default:
+	}
+	return false
+}
+
+func (c *SendCaseT[T]) selTryReal() bool {
+	select {
+	case c.ch <- c.v:
+		return true
+	default:
+		return false
+	}
+}
+
+func (c *SendCaseT[T]) selCleanup() {
+	if c.idx >= 0 {
+		withdraw(c.idx)
+		c.idx = -1
+	}
+}
+
+type RecvCaseT[T any] struct {
+	ch <-chan T
+	V  T
+	Ok bool
+}
+
+func RecvCase[T any](ch <-chan T) *RecvCaseT[T] { return &RecvCaseT[T]{ch: ch} }
+
+func (c *RecvCaseT[T]) selTaken() bool { return false }
+func (c *RecvCaseT[T]) selTry() bool {
+	v, ok, got := tryRecv(c.ch)
+	if got {
+		c.V, c.Ok = v, ok
+	}
+	return got
+}
+func (c *RecvCaseT[T]) selTryReal() bool {
+	select {
+	case v, ok := <-c.ch:
+		c.V, c.Ok = v, ok
+		return true
+	default:
+		return false
+	}
+}
+func (c *RecvCaseT[T]) selCleanup() {}
+
+// Select mirrors a select statement without default: it returns the index of
+// the case that fired.
+func Select(cs ...SelCase) int {
+	if getCur() == nil {
+		// outside simulation: real non-blocking attempts until one succeeds
+		for {
+			for i, c := range cs {
+				if c.selTryReal() {
+					return i
+				}
+			}
+			runtime.Gosched()
+		}
+	}
+	YS(SitePrimBase + 30)
+	defer func() {
+		for _, c := range cs {
+			c.selCleanup() // offers nobody took: withdrawn when another case fired or on tear-down
+		}
+	}()
+	for {
+		for i, c := range cs {
+			if c.selTaken() {
+				YS(SitePrimBase + 31)
+				return i
+			}
+		}
+		for i, c := range cs {
+			if c.selTry() {
+				// the other offers are withdrawn before anybody else runs
+				for _, o := range cs {
+					o.selCleanup()
+				}
+				YS(SitePrimBase + 31)
+				return i
+			}
+		}
+		block(SitePrimBase + 32)
+	}
 }
